@@ -40,6 +40,7 @@ fn main() {
             e if e.starts_with("e2") => engines::e2::replay(&v),
             e if e.starts_with("e3") => engines::e3::replay(&v),
             e if e.starts_with("e5") => engines::e5::replay(&v),
+            e if e.starts_with("e6") => engines::e6::replay(&v),
             other => {
                 eprintln!("unknown engine {other}");
                 std::process::exit(2);
@@ -114,6 +115,7 @@ fn main() {
         "C10" => engines::c10::run_c10(&a, &shared),
         "C15" => engines::c15::run_c15(&a, &shared),
         "C16" => engines::c16::run_c16(&a, &shared),
+        "C17" => engines::e6::run_c17(&a, &shared),
         "C20" => engines::c20::run_c20(&a, &shared),
         "C08" => engines::e5::run_testers(&a, &shared, "C08"),
         "C14" => engines::e5::run_testers(&a, &shared, "C14"),
